@@ -1,4 +1,4 @@
-mod ctx; mod model; mod rng; mod util; mod props;
+mod ctx; mod model; mod rng; mod util; mod props; mod chartable;
 use ctx::{Ctx, Known};
 
 fn load_known(path: &str) -> Vec<Known> {
@@ -11,6 +11,7 @@ fn load_known(path: &str) -> Vec<Known> {
 
 fn main() {
     let a: Vec<String> = std::env::args().collect();
+    if a.len() == 3 && a[1] == "chartable" { chartable::generate(&a[2]); return; }
     if a.len() < 7 { eprintln!("usage: harness <prop> <quick|thorough> <seed> <driver> <known.json> <out.json>"); std::process::exit(2); }
     let (prop, tier, seed, driver, known, out) = (&a[1], &a[2], a[3].parse::<u64>().unwrap_or(1), &a[4], &a[5], &a[6]);
     util::install_panic_hook();
